@@ -139,6 +139,8 @@ class BuzzGen:
                 name = r.choice(sorted(FROZEN_MELODIES))
                 tempo = r.choice([None, None, 120, 240, 300, 400, 90.5, 0, -10])
                 call.update({"name": name, "tempo": tempo})
+                # melody names are matched case-insensitively by the transpiler
+                name = r.choice([name, name, name.capitalize(), name.upper(), name.title()])
                 if tempo is None:
                     text = r.choice([f'bz.melody("{name}")', f'bz.melody(name="{name}")'])
                 else:
